@@ -3,6 +3,7 @@ from __future__ import annotations
 import ast
 import copy
 import inspect
+import keyword
 import logging
 from dataclasses import dataclass, is_dataclass, make_dataclass
 from typing import (
@@ -938,9 +939,16 @@ def remap_by_types(
                 (ast.literal_eval(f), self.lookup_type(v))  # type: ignore
                 for f, v in zip(t_node.keys, t_node.values)
             ]
-            dict_dataclass = make_dataclass("dict_dataclass", fields)
-
-            self._found_types[t_node] = dict_dataclass
+            # A dataclass can only model the dictionary if its keys can be field names.
+            field_names = [f[0] for f in fields]
+            if all(
+                isinstance(n, str) and n.isidentifier() and not keyword.iskeyword(n)
+                for n in field_names
+            ) and len(set(field_names)) == len(field_names):
+                dict_dataclass = make_dataclass("dict_dataclass", fields)
+                self._found_types[t_node] = dict_dataclass
+            else:
+                self._found_types[t_node] = Any
             return t_node
 
         def visit_Constant(self, node: ast.Constant) -> Any:
